@@ -9,6 +9,8 @@ import AfkakProofs.Producer.OneFlight
 import AfkakProofs.Producer.ReportedTrace
 import AfkakProofs.Producer.AfterStop
 import AfkakProofs.Producer.AuditTraces
+import AfkakProofs.Producer.BrokerLogModel
+import AfkakProofs.Producer.Compose2
 /-!
 # C09 — Per-partition send order is preserved and retries are disciplined
 Property theorems only.  Model: `Afkak/Producer.lean`; monitors: `Afkak/Monitor/C09.lean`.
@@ -185,6 +187,109 @@ example : Hyp exNm exKeys exResults := by
   exact ⟨by decide, by decide⟩
 end
 
+/-! ## The first sentence of C09, end to end: the partition logs the brokers end up with
+
+`Afkak/Monitor/C09Log.lean`: an ABSTRACT BROKER LOG as a function of a trace.  Every produce request is carried out by
+the brokers payload by payload; a payload is appended to its partition's log when the client's answer to THAT request
+carries the error-0 response for the topic/partition (`Entry.acked`), and - the acknowledgement was LOST: request
+timed out, connection dropped, request cancelled or never answered, or the broker appended locally and answered with
+an error code - whenever the ORACLE `applied rid tp` says so.  The theorems hold for EVERY oracle: the Producer cannot
+observe which unacknowledged payloads were appended.  Requests are carried out in the order made (one request in
+flight, `C09_one_batch`).  `Entry.sids` are the sends whose messages, in order, are the payload's messages
+(`C01_payload_integrity`); send ids are handed out in call order. -/
+section BrokerLog
+open Afkak.Monitor.C09Log Afkak.ProducerCompose
+
+/-- LOG ORDER, any event list, any oracle.  (1) every append is a non-empty payload whose sends are in submission
+    order; (2) of two appends to the same partition the later one is the SAME payload again (a retry after an
+    unacknowledged append) or consists only of sends made LATER than every send of the earlier one; hence (3) "the
+    messages reach the broker in the order the sends were made": at the moment ANY copy of a send `y` is appended
+    (`L = A ++ E :: B`, `y ∈ E`), every earlier send `x < y` that is in that partition's log at all is already
+    there - in the same append (before `y`, by (1)) or in an earlier one (`A`). -/
+theorem C09_log_order (cfg : Cfg) (applied : Rid → TP → Bool) (evs : List Ev) :
+    (∀ E ∈ brokerLog cfg applied (traceOf cfg evs), E.sids ≠ [] ∧ increasing E.sids = true) ∧
+    (brokerLog cfg applied (traceOf cfg evs)).Pairwise
+      (fun E1 E2 => E1.tp = E2.tp → E1.sids = E2.sids ∨ ∀ x ∈ E1.sids, ∀ y ∈ E2.sids, x < y) ∧
+    (∀ A E B, brokerLog cfg applied (traceOf cfg evs) = A ++ E :: B → ∀ x y, x < y → y ∈ E.sids →
+      (∃ E' ∈ brokerLog cfg applied (traceOf cfg evs), E'.tp = E.tp ∧ x ∈ E'.sids) →
+      x ∈ E.sids ∨ ∃ E0 ∈ A, E0.tp = E.tp ∧ x ∈ E0.sids) :=
+  Afkak.Producer.BrokerLog.log_order_model cfg applied evs
+
+/-- A REPORTED SUCCESS IS IN THE LOG, any event list, any oracle: every `fire s (ok r)` of the trace has an
+    ACKNOWLEDGED entry of the log for `r`'s topic/partition that carries `s`.  With `C09_log_order`: for sends
+    `s1 < s2` to one partition that both SUCCEED, both are in that partition's log and no copy of `s2` precedes the
+    first copy of `s1`. -/
+theorem C09_success_is_logged (cfg : Cfg) (applied : Rid → TP → Bool) (evs : List Ev) :
+    ∀ x ∈ successes (traceOf cfg evs), ∃ E ∈ brokerLog cfg applied (traceOf cfg evs),
+      E.acked = true ∧ E.tp = x.2.tp ∧ x.1 ∈ E.sids :=
+  Afkak.Producer.BrokerLog.success_logged_model cfg applied evs
+
+/-- AT LEAST ONCE, and exactly when a duplicate is possible - any event list, any oracle: if a send is in two appends
+    `E1` (earlier) and `E2` (later) then `E1` was NOT acknowledged to the client (`acked = false`: the append was made
+    although no error-0 response for it reached the client - a lost acknowledgement, which is why the payload was
+    retried), and if they are for the same partition `E2` is that very payload again.  Equivalently: after an
+    acknowledged append none of its sends is ever appended again ("acknowledged ones are never re-sent"). -/
+theorem C09_duplicates_only_after_lost_ack (cfg : Cfg) (applied : Rid → TP → Bool) (evs : List Ev) :
+    (brokerLog cfg applied (traceOf cfg evs)).Pairwise
+      (fun E1 E2 => ∀ s, s ∈ E1.sids → s ∈ E2.sids → E1.acked = false ∧ (E1.tp = E2.tp → E1.sids = E2.sids)) :=
+  Afkak.Producer.BrokerLog.duplicates_model cfg applied evs
+
+/-- … and when NO acknowledgement is lost (the brokers append exactly what they acknowledge: the oracle is constantly
+    false) every entry is an acknowledged one and no send is in two appends: exactly once. -/
+theorem C09_no_lost_ack_no_duplicates (cfg : Cfg) (evs : List Ev) :
+    (∀ E ∈ brokerLog cfg (fun _ _ => false) (traceOf cfg evs), E.acked = true) ∧
+    (brokerLog cfg (fun _ _ => false) (traceOf cfg evs)).Pairwise (fun E1 E2 => ∀ s ∈ E1.sids, s ∉ E2.sids) :=
+  ⟨Afkak.Producer.BrokerLog.all_acked cfg _, Afkak.Producer.BrokerLog.exactly_once_model cfg evs⟩
+
+/-- COMPOSED with the client (`Afkak/ProducerCompose.lean`: the client's answers are computed by the client model's
+    `send_produce_request` from the cache it routes with and what each broker request came to - an acknowledged
+    entry is a payload whose broker request was answered with error 0 by the leader the cache named,
+    `C01_composed_success_only_if_leader_acked`): on EVERY composed run, for every oracle, the log is ordered as in
+    `C09_log_order` and every reported success is an acknowledged entry. -/
+theorem C09_composed_log_order (cfg : Cfg) (nm : Topic → String) (ces : List CEv) (applied : Rid → TP → Bool) :
+    runC cfg nm (St.init cfg) ces = run cfg (St.init cfg) (flatten cfg nm (St.init cfg) ces) ∧
+    (∀ E ∈ brokerLog cfg applied (traceOf cfg (flatten cfg nm (St.init cfg) ces)),
+      E.sids ≠ [] ∧ increasing E.sids = true) ∧
+    (brokerLog cfg applied (traceOf cfg (flatten cfg nm (St.init cfg) ces))).Pairwise
+      (fun E1 E2 => E1.tp = E2.tp → E1.sids = E2.sids ∨ ∀ x ∈ E1.sids, ∀ y ∈ E2.sids, x < y) ∧
+    (∀ A E B, brokerLog cfg applied (traceOf cfg (flatten cfg nm (St.init cfg) ces)) = A ++ E :: B →
+      ∀ x y, x < y → y ∈ E.sids →
+      (∃ E' ∈ brokerLog cfg applied (traceOf cfg (flatten cfg nm (St.init cfg) ces)), E'.tp = E.tp ∧ x ∈ E'.sids) →
+      x ∈ E.sids ∨ ∃ E0 ∈ A, E0.tp = E.tp ∧ x ∈ E0.sids) ∧
+    (∀ x ∈ successes (traceOf cfg (flatten cfg nm (St.init cfg) ces)),
+      ∃ E ∈ brokerLog cfg applied (traceOf cfg (flatten cfg nm (St.init cfg) ces)),
+        E.acked = true ∧ E.tp = x.2.tp ∧ x.1 ∈ E.sids) :=
+  ⟨Afkak.ProducerCompose.runC_eq_run cfg nm _ ces,
+   (Afkak.Producer.BrokerLog.log_order_model cfg applied _).1,
+   (Afkak.Producer.BrokerLog.log_order_model cfg applied _).2.1,
+   (Afkak.Producer.BrokerLog.log_order_model cfg applied _).2.2,
+   Afkak.Producer.BrokerLog.success_logged_model cfg applied _⟩
+
+/-- … and duplicates on every composed run: only after a lost acknowledgement; none when none is lost. -/
+theorem C09_composed_duplicates_only_after_lost_ack (cfg : Cfg) (nm : Topic → String) (ces : List CEv)
+    (applied : Rid → TP → Bool) :
+    (brokerLog cfg applied (traceOf cfg (flatten cfg nm (St.init cfg) ces))).Pairwise
+      (fun E1 E2 => ∀ s, s ∈ E1.sids → s ∈ E2.sids → E1.acked = false ∧ (E1.tp = E2.tp → E1.sids = E2.sids)) ∧
+    (brokerLog cfg (fun _ _ => false) (traceOf cfg (flatten cfg nm (St.init cfg) ces))).Pairwise
+      (fun E1 E2 => ∀ s ∈ E1.sids, s ∉ E2.sids) :=
+  ⟨Afkak.Producer.BrokerLog.duplicates_model cfg applied _, Afkak.Producer.BrokerLog.exactly_once_model cfg _⟩
+
+/-! Non-vacuity: the first attempt's acknowledgement is lost (the request fails at the client, the broker had appended
+the payload), the retry is acknowledged, a second send is acknowledged at once: the log has the first send twice -
+the earlier copy unacknowledged - then the second send; without the lost acknowledgement each send is there once. -/
+def logCfg : Cfg := Cfg.ofArgs 1 3 (1/4) false 1 1 none false
+def logEvs : List Ev :=
+  [.metaSet 0 0 (some [0]), .send 0 0 none [some 3],
+   .produceDone 0 (.failed [] [⟨⟨0, 0⟩, .broker 7, true⟩]), .timer 0,
+   .produceDone 1 (.responses [⟨⟨0, 0⟩, 0, 42⟩]),
+   .send 1 0 none [some 5], .produceDone 2 (.responses [⟨⟨0, 0⟩, 0, 43⟩])]
+example : (brokerLog logCfg (fun rid _ => rid == 0) (traceOf logCfg logEvs)).map (fun E => (E.sids, E.acked)) =
+    [([0], false), ([0], true), ([1], true)] := by decide +kernel
+example : (brokerLog logCfg (fun _ _ => false) (traceOf logCfg logEvs)).map (fun E => (E.sids, E.acked)) =
+    [([0], true), ([1], true)] := by decide +kernel
+example : (successes (traceOf logCfg logEvs)).map (·.1) = [0, 1] := by decide +kernel
+end BrokerLog
+
 end Afkak.Props.C09
 
 /- OBLIGATIONS
@@ -201,6 +306,12 @@ C09_reported
 C09_acked_reported_step
 C09_client_returns_every_response
 C09_composed_retry_only_failed
+C09_log_order
+C09_success_is_logged
+C09_duplicates_only_after_lost_ack
+C09_no_lost_ack_no_duplicates
+C09_composed_log_order
+C09_composed_duplicates_only_after_lost_ack
 -/
 /- OPEN_STATEMENTS
 -/
